@@ -48,11 +48,11 @@ func init() {
 			r := fc.fresh("trim", SString)
 			i := fc.fresh("trim_i", SInt)
 			fc.fact(fmt.Sprintf("(and (<= 0 %s) (<= (+ %s (str.len %s)) (str.len %s)) (= %s (str.substr %s %s (str.len %s))))", i.S, i.S, r.S, s.S, r.S, s.S, i.S, r.S))
-			// first and last byte of the result are not ASCII white space
-			for _, ch := range asciiSpace {
-				fc.fact(fmt.Sprintf("(=> (> (str.len %s) 0) (and (not (= (str.at %s 0) %s)) (not (= (str.at %s (- (str.len %s) 1)) %s))))", r.S, r.S, smtString(string(ch)), r.S, r.S, smtString(string(ch))))
-			}
-			// a string without leading/trailing white space (ASCII and the two-byte U+0085/U+00A0 aside) is unchanged
+			// exactly the leading and trailing Unicode white space (as UTF-8 byte sequences) is removed
+			fc.fact(fmt.Sprintf("(str.in_re (str.substr %s 0 %s) (re.* ws$re))", s.S, i.S))
+			fc.fact(fmt.Sprintf("(str.in_re (str.substr %s (+ %s (str.len %s)) (str.len %s)) (re.* ws$re))", s.S, i.S, r.S, s.S))
+			fc.fact(fmt.Sprintf("(not (str.in_re %s (re.++ ws$re re.all)))", r.S))
+			fc.fact(fmt.Sprintf("(not (str.in_re %s (re.++ re.all ws$re)))", r.S))
 			return r
 		},
 		"strings.Index": func(fr *frame, in ssa.Instruction, c *ssa.CallCommon, args []Val, st *State, reach string) Val {
@@ -168,25 +168,25 @@ func init() {
 			ok := Term{fmt.Sprintf("(timeparse$ok %s %s)", l.S, s.S), SBool}
 			return &Tuple{[]Val{Term{fmt.Sprintf("(timeparse$val %s %s)", l.S, s.S), STime}, maybeErr(fc, ok)}}
 		},
-		"(time.Time).Format": func(fr *frame, in ssa.Instruction, c *ssa.CallCommon, args []Val, st *State, reach string) Val {
+		"time.(Time).Format": func(fr *frame, in ssa.Instruction, c *ssa.CallCommon, args []Val, st *State, reach string) Val {
 			fc := fr.fc
 			fc.declareFun("timefmt$", []string{STime, SString}, SString)
 			return Term{fmt.Sprintf("(timefmt$ %s %s)", tArg(args, 0).S, tArg(args, 1).S), SString}
 		},
-		"(time.Time).Equal": func(fr *frame, in ssa.Instruction, c *ssa.CallCommon, args []Val, st *State, reach string) Val {
+		"time.(Time).Equal": func(fr *frame, in ssa.Instruction, c *ssa.CallCommon, args []Val, st *State, reach string) Val {
 			return Term{fmt.Sprintf("(= (tinst %s) (tinst %s))", tArg(args, 0).S, tArg(args, 1).S), SBool}
 		},
-		"(time.Time).Before": func(fr *frame, in ssa.Instruction, c *ssa.CallCommon, args []Val, st *State, reach string) Val {
+		"time.(Time).Before": func(fr *frame, in ssa.Instruction, c *ssa.CallCommon, args []Val, st *State, reach string) Val {
 			return Term{fmt.Sprintf("(< (tinst %s) (tinst %s))", tArg(args, 0).S, tArg(args, 1).S), SBool}
 		},
-		"(time.Time).After": func(fr *frame, in ssa.Instruction, c *ssa.CallCommon, args []Val, st *State, reach string) Val {
+		"time.(Time).After": func(fr *frame, in ssa.Instruction, c *ssa.CallCommon, args []Val, st *State, reach string) Val {
 			return Term{fmt.Sprintf("(> (tinst %s) (tinst %s))", tArg(args, 0).S, tArg(args, 1).S), SBool}
 		},
-		"(time.Time).Sub": func(fr *frame, in ssa.Instruction, c *ssa.CallCommon, args []Val, st *State, reach string) Val {
+		"time.(Time).Sub": func(fr *frame, in ssa.Instruction, c *ssa.CallCommon, args []Val, st *State, reach string) Val {
 			fr.fc.assumes = append(fr.fc.assumes, "time.Time.Sub modelled as exact difference of instants (saturation at +-292 years ignored)")
 			return Term{fmt.Sprintf("(- (tinst %s) (tinst %s))", tArg(args, 0).S, tArg(args, 1).S), SInt}
 		},
-		"(time.Time).UnixNano": func(fr *frame, in ssa.Instruction, c *ssa.CallCommon, args []Val, st *State, reach string) Val {
+		"time.(Time).UnixNano": func(fr *frame, in ssa.Instruction, c *ssa.CallCommon, args []Val, st *State, reach string) Val {
 			fc := fr.fc
 			fc.declareFun("wrap64", []string{SInt}, SInt)
 			return Term{fmt.Sprintf("(wrap64 (tinst %s))", tArg(args, 0).S), SInt}
@@ -222,18 +222,18 @@ func init() {
 			fc.fact(fmt.Sprintf("(=> (and (<= 0 %s) (< %s 128)) (= %s (ite (and (<= 65 %s) (<= %s 90)) (+ %s 32) %s)))", r.S, r.S, v.S, r.S, r.S, r.S, r.S))
 			return v
 		},
-		"(*sync.RWMutex).Lock":    lockModel(0, 2),
-		"(*sync.RWMutex).Unlock":  lockModel(2, 0),
-		"(*sync.RWMutex).RLock":   lockModel(0, 1),
-		"(*sync.RWMutex).RUnlock": lockModel(1, 0),
-		"(*sync.Mutex).Lock":      lockModel(0, 2),
-		"(*sync.Mutex).Unlock":    lockModel(2, 0),
+		"sync.(*RWMutex).Lock":    lockModel(0, 2),
+		"sync.(*RWMutex).Unlock":  lockModel(2, 0),
+		"sync.(*RWMutex).RLock":   lockModel(0, 1),
+		"sync.(*RWMutex).RUnlock": lockModel(1, 0),
+		"sync.(*Mutex).Lock":      lockModel(0, 2),
+		"sync.(*Mutex).Unlock":    lockModel(2, 0),
 	}
-	for _, k := range []string{"(*sync.RWMutex).Lock", "(*sync.RWMutex).Unlock", "(*sync.RWMutex).RLock", "(*sync.RWMutex).RUnlock", "(*sync.Mutex).Lock", "(*sync.Mutex).Unlock"} {
+	for _, k := range []string{"sync.(*RWMutex).Lock", "sync.(*RWMutex).Unlock", "sync.(*RWMutex).RLock", "sync.(*RWMutex).RUnlock", "sync.(*Mutex).Lock", "sync.(*Mutex).Unlock"} {
 		libTouches[k] = []string{"*LK"}
 	}
 	// functions that neither read nor write the modelled heap and whose result is left unconstrained
-	for _, k := range []string{"(error).Error", "context.Background", "context.TODO", "(*github.com/google/badwolf/bql/planner/tracer.Arguments).String"} {
+	for _, k := range []string{".(error).Error", "context.Background", "context.TODO", "(*github.com/google/badwolf/bql/planner/tracer.Arguments).String"} {
 		libPure[k] = true
 	}
 }
@@ -351,3 +351,72 @@ func (fc *FnCtx) fmtArg(a Term, verb byte, spec string) Term {
 }
 
 var _ = types.Typ
+
+// regexpPattern finds the constant pattern compiled into the package-level regexp variable g.
+func (e *Engine) regexpPattern(g *ssa.Global) (string, bool) {
+	if _, bad := e.unstable[g]; bad {
+		return "", false
+	}
+	pat, n := "", 0
+	for f := range e.allFuncs {
+		if f.Pkg != g.Pkg {
+			continue
+		}
+		for _, b := range f.Blocks {
+			for _, in := range b.Instrs {
+				st, ok := in.(*ssa.Store)
+				if !ok || st.Addr != g {
+					continue
+				}
+				n++
+				call, ok := st.Val.(*ssa.Call)
+				if !ok {
+					return "", false
+				}
+				cf := call.Call.StaticCallee()
+				if cf == nil || fnKey(cf) != "regexp.MustCompile" {
+					return "", false
+				}
+				k, ok := call.Call.Args[0].(*ssa.Const)
+				if !ok || k.Value == nil {
+					return "", false
+				}
+				pat = constant.StringVal(k.Value)
+			}
+		}
+	}
+	return pat, n == 1
+}
+
+func init() {
+	libModels["regexp.(*Regexp).FindIndex"] = func(fr *frame, in ssa.Instruction, c *ssa.CallCommon, args []Val, st *State, reach string) Val {
+		fc := fr.fc
+		s := tArg(args, 1)
+		r := fc.fresh("findindex", slc(SInt))
+		a := fmt.Sprintf("(select (sarr %s) (soff %s))", r.S, r.S)
+		b := fmt.Sprintf("(select (sarr %s) (+ (soff %s) 1))", r.S, r.S)
+		fc.fact(fmt.Sprintf("(and (<= 0 (soff %s)) (or (= (slen %s) 0) (= (slen %s) 2)))", r.S, r.S, r.S))
+		fc.fact(fmt.Sprintf("(=> (= (slen %s) 2) (and (<= 0 %s) (<= %s %s) (<= %s (str.len %s))))", r.S, a, a, b, b, s.S))
+		pat := ""
+		if ld, ok := c.Args[0].(*ssa.UnOp); ok {
+			if g, ok := ld.X.(*ssa.Global); ok {
+				pat, _ = fc.e.regexpPattern(g)
+			}
+		}
+		at := func(i string) string { return fmt.Sprintf("(str.at %s %s)", s.S, i) }
+		_ = at
+		switch pat {
+		case ">\\s+\"":
+			fc.fact(fmt.Sprintf("(=> (= (slen %s) 2) (str.in_re (str.substr %s %s (- %s %s)) (re.++ (str.to_re \">\") (re.+ (re.union (re.range \"\\u{9}\" \"\\u{d}\") (str.to_re \" \"))) (str.to_re \"\"\"\"))))", r.S, s.S, a, b, a))
+			fc.fact(fmt.Sprintf("(=> (= (slen %s) 0) (not (str.in_re %s (re.++ re.all (str.to_re \">\") (re.+ (re.union (re.range \"\\u{9}\" \"\\u{d}\") (str.to_re \" \"))) (str.to_re \"\"\"\") re.all))))", r.S, s.S))
+			fc.trusted["regexp `>\\s+\"`: a match starts with '>' , ends with '\"', has only white space ([\\t\\n\\f\\r ]; Go regexp \\s) in between; no match means no such substring"] = true
+		case "(]\\s+/)|(]\\s+\")":
+			fc.fact(fmt.Sprintf("(=> (= (slen %s) 2) (str.in_re (str.substr %s %s (- %s %s)) (re.++ (str.to_re \"]\") (re.+ (re.union (re.range \"\\u{9}\" \"\\u{d}\") (str.to_re \" \"))) (re.union (str.to_re \"/\") (str.to_re \"\"\"\")))))", r.S, s.S, a, b, a))
+			fc.fact(fmt.Sprintf("(=> (= (slen %s) 0) (not (str.in_re %s (re.++ re.all (str.to_re \"]\") (re.+ (re.union (re.range \"\\u{9}\" \"\\u{d}\") (str.to_re \" \"))) (re.union (str.to_re \"/\") (str.to_re \"\"\"\")) re.all))))", r.S, s.S))
+			fc.trusted["regexp `(]\\s+/)|(]\\s+\")`: a match starts with ']', ends with '/' or '\"', has only white space ([\\t\\n\\f\\r ]; Go regexp \\s) in between; no match means no such substring"] = true
+		default:
+			fc.e.warn("%s: regexp with unknown pattern %q: only bounds assumed", fc.short, pat)
+		}
+		return r
+	}
+}
